@@ -8,6 +8,7 @@ import (
 	"encoding/base64"
 	"encoding/binary"
 	"fmt"
+	"github.com/gobwas/ws"
 	"io"
 	"net"
 	"net/http"
@@ -17,6 +18,7 @@ import (
 	"sync"
 	"testing"
 	"time"
+	"unicode/utf8"
 
 	"google.golang.org/genproto/googleapis/api/annotations"
 	"google.golang.org/genproto/googleapis/api/httpbody"
@@ -252,6 +254,56 @@ type hijackWriter struct {
 	client   []byte
 	hijacked bool
 	done     chan struct{}
+	outMu    sync.Mutex
+	out      bytes.Buffer // what the server wrote after the upgrade (bounded)
+}
+
+type capWriter struct{ h *hijackWriter }
+
+func (c capWriter) Write(p []byte) (int, error) {
+	c.h.outMu.Lock()
+	if c.h.out.Len() < 1<<20 {
+		c.h.out.Write(p)
+	}
+	c.h.outMu.Unlock()
+	return len(p), nil
+}
+
+// checkWSOutput validates the frames the server sent on a hijacked connection:
+// parsable headers, control frames of at most 125 bytes, and close frames whose
+// code and reason satisfy RFC 6455 (the reason is valid UTF-8).
+func checkWSOutput(b []byte) string {
+	i := bytes.Index(b, []byte("\r\n\r\n"))
+	if i < 0 {
+		return "" // no complete handshake response: nothing to say about frames
+	}
+	rd := bytes.NewReader(b[i+4:])
+	for rd.Len() > 0 {
+		f, err := ws.ReadFrame(rd)
+		if err != nil {
+			return "" // the connection ended inside a frame (deadline / close): not a framing statement
+		}
+		if f.Header.OpCode.IsControl() && len(f.Payload) > 125 {
+			return fmt.Sprintf("control frame %#x with a %d-byte payload", byte(f.Header.OpCode), len(f.Payload))
+		}
+		switch f.Header.OpCode {
+		case ws.OpClose:
+			if len(f.Payload) == 1 {
+				return "close frame with a 1-byte payload"
+			}
+			if len(f.Payload) >= 2 {
+				code, reason := ws.ParseCloseFrameData(f.Payload)
+				if err := ws.CheckCloseFrameData(code, reason); err != nil {
+					return fmt.Sprintf("close frame %d %q: %v", code, reason, err)
+				}
+			}
+		case ws.OpText:
+			if f.Header.Fin && !utf8.Valid(f.Payload) {
+				return fmt.Sprintf("text frame that is not valid UTF-8: %q", f.Payload)
+			}
+		}
+	}
+	return ""
 }
 
 func (h *hijackWriter) Hijack() (net.Conn, *bufio.ReadWriter, error) {
@@ -261,7 +313,7 @@ func (h *hijackWriter) Hijack() (net.Conn, *bufio.ReadWriter, error) {
 	deadline := time.Now().Add(3 * time.Second)
 	srv.SetDeadline(deadline)
 	cli.SetDeadline(deadline)
-	go func() { io.Copy(io.Discard, cli) }()
+	go func() { io.Copy(capWriter{h}, cli) }()
 	go func() {
 		defer close(h.done)
 		cli.Write(h.client)
@@ -377,6 +429,19 @@ func Check(c Case) ([]evid.Violation, outcome) {
 	if !o.hijacked && (o.status < 100 || o.status > 599) {
 		return []evid.Violation{evid.V("malformed-response", "status-out-of-range", "status %d", o.status)}, o
 	}
+	if o.hijacked {
+		select { // let the drain goroutine see the last bytes
+		case <-hw.done:
+		case <-time.After(time.Second):
+		}
+		time.Sleep(time.Millisecond)
+		hw.outMu.Lock()
+		out := append([]byte{}, hw.out.Bytes()...)
+		hw.outMu.Unlock()
+		if msg := checkWSOutput(out); msg != "" {
+			return []evid.Violation{evid.V("malformed-response", "ws-malformed-frame", "the server sent a malformed WebSocket frame: %s", msg)}, o
+		}
+	}
 	if o.reads > 16+4*len(c.Body) {
 		return []evid.Violation{evid.V("spin", "spin-reads", "%d Read calls for a %d-byte body", o.reads, len(c.Body))}, o
 	}
@@ -465,6 +530,12 @@ func wsFrames(t *rapid.T) []byte {
 	n := rapid.IntRange(0, 3).Draw(t, "nws")
 	for i := 0; i < n; i++ {
 		payload := rapid.SampledFrom([][]byte{[]byte(`{}`), []byte(`{"fInt32":1}`), []byte(`{bad`), nil, []byte(`{"nope":1}`), bytes.Repeat([]byte("x"), 200)}).Draw(t, "wspl")
+		if rapid.IntRange(0, 4).Draw(t, "wslongname") == 0 {
+			// an error text (it quotes the unknown field) longer than a close frame can carry, with
+			// multi-byte runes at every alignment relative to the cut
+			unit := rapid.SampledFrom([]string{"é", "日", "😀", "x"}).Draw(t, "wsunit")
+			payload = []byte(`{"` + strings.Repeat("a", rapid.IntRange(0, 4).Draw(t, "wspad")) + strings.Repeat(unit, 160/len(unit)) + `":1}`)
+		}
 		op := rapid.SampledFrom([]byte{0x81, 0x81, 0x82, 0x88, 0x89, 0x8a, 0x01, 0x80, 0x8f}).Draw(t, "wsop")
 		mask := []byte{1, 2, 3, 4}
 		b := []byte{op}
